@@ -78,6 +78,9 @@ func genC03(forceStale bool) func(t *rapid.T) C03Scenario {
 			if rapid.Bool().Draw(t, "fshort") {
 				f.Short = 1 + rapid.Uint16Max(2000).Draw(t, "fshortn")
 			}
+			if rapid.IntRange(0, 2).Draw(t, "fsticky") == 0 {
+				f.Sticky = uint8(rapid.IntRange(1, 3).Draw(t, "fstickyn"))
+			}
 			s.Faults = append(s.Faults, f)
 		}
 		s.FaultAll = pbt.GetEnv().Tier == "thorough" && rapid.IntRange(0, 3).Draw(t, "faultall") == 0
@@ -396,7 +399,7 @@ func runC03(s C03Scenario) pbt.Outcome {
 		} else if len(fidx) > 0 {
 			for _, f := range s.Faults {
 				i := fidx[int(f.Pos)%len(fidx)]
-				flt := vfs.Fault{}
+				flt := vfs.Fault{Sticky: int(f.Sticky)}
 				if f.Short > 0 && ops[i].Kind == "write" && len(ops[i].Data) > 1 {
 					flt.Short = 1 + int(f.Short)%(len(ops[i].Data)-1)
 				}
@@ -406,6 +409,8 @@ func runC03(s C03Scenario) pbt.Outcome {
 			lastW, lastS := -1, -1
 			for i, o := range ops {
 				if o.Kind == "rename" {
+					// the rename itself, failing once and failing persistently (a retry fails too)
+					plans = append(plans, map[int]vfs.Fault{i: {}}, map[int]vfs.Fault{i: {Sticky: 2}})
 					break
 				}
 				if o.Kind == "write" {
